@@ -346,6 +346,107 @@ Definition min_conns_avail (mf : Z) (pool : list host) : option Z :=
                                       | Some m => Some (Z.min m (conns h)) end
                           else acc) pool None.
 
+(* ================= bytes of the buffered request body vs the shared buffer pool (kind retryconc) =====
+   body.go: newBufferedBody reads the whole body with ioutil.ReadAll into memory of its own;
+   bufferedBody.Close is a no-op; rewind seeks to 0; every attempt reads that memory again.
+   reverseproxy.go: bufferPool is a sync.Pool of 32 KiB slices used by pooledIoCopy (every relayed
+   response) and the websocket replay buffer: Get (any pooled slice, or a fresh one), write, Put.
+   Memory = numbered blocks; the pool and the blocks currently held by other goroutines are lists of
+   block numbers. *)
+Fixpoint set_nth {A} (i : nat) (v : A) (l : list A) : list A :=
+  match l, i with
+  | [], _ => []
+  | _ :: r, O => v :: r
+  | x :: r, Datatypes.S j => x :: set_nth j v r
+  end.
+Definition block := list N.
+Record mem := mk_mem { m_heap : list block; m_pool : list nat; m_held : list nat }.
+Fixpoint remove_nth {A} (i : nat) (l : list A) : list A :=
+  match l, i with
+  | [], _ => []
+  | _ :: r, O => r
+  | x :: r, Datatypes.S j => x :: remove_nth j r
+  end.
+(* a write of [data] at the start of a block (copy buffers are filled from offset 0) *)
+Definition write_at (old data : block) : block := data ++ skipn (length data) old.
+Inductive mev :=
+| MGet (pick : nat)                 (* bufferPool.Get(): the pick-th pooled block, a fresh one if there is none *)
+| MWrite (h : nat) (data : block)   (* the holder of the h-th held block writes into it *)
+| MPut (h : nat)                    (* bufferPool.Put *)
+| MAttempt.                         (* an attempt of OUR request: rewind, the transport reads the body to EOF and closes it *)
+Record bbody := mk_bbody { bb_block : nat; bb_len : nat; bb_put : bool }.
+(* newBufferedBody: ReadAll allocates; nothing else refers to the block *)
+Definition new_body (m : mem) (body : block) : mem * bbody :=
+  (mk_mem (m_heap m ++ [body]) (m_pool m) (m_held m), mk_bbody (length (m_heap m)) (length body) false).
+(* [close_puts]: false = the code (Close is a no-op); true = a Close that hands the body's block to
+   the pool (once), for contrast *)
+Definition mstep (close_puts : bool) (s : mem * bbody) (e : mev) : (mem * bbody) * option block :=
+  let '(m, b) := s in
+  match e with
+  | MGet pick =>
+      match nth_error (m_pool m) pick with
+      | Some k => ((mk_mem (m_heap m) (remove_nth pick (m_pool m)) (m_held m ++ [k]), b), None)
+      | None => ((mk_mem (m_heap m ++ [[]]) (m_pool m) (m_held m ++ [length (m_heap m)]), b), None)
+      end
+  | MWrite h data =>
+      match nth_error (m_held m) h with
+      | Some k => ((mk_mem (set_nth k (write_at (nth k (m_heap m) []) data) (m_heap m)) (m_pool m) (m_held m), b), None)
+      | None => ((m, b), None)
+      end
+  | MPut h =>
+      match nth_error (m_held m) h with
+      | Some k => ((mk_mem (m_heap m) (k :: m_pool m) (remove_nth h (m_held m)), b), None)
+      | None => ((m, b), None)
+      end
+  | MAttempt =>
+      let got := firstn (bb_len b) (nth (bb_block b) (m_heap m) []) in
+      if close_puts && negb (bb_put b)
+      then ((mk_mem (m_heap m) (bb_block b :: m_pool m) (m_held m), mk_bbody (bb_block b) (bb_len b) true), Some got)
+      else ((m, b), Some got)
+  end.
+(* what the attempts of our request read, in order *)
+Fixpoint mrun (close_puts : bool) (s : mem * bbody) (evs : list mev) : list block :=
+  match evs with
+  | [] => []
+  | e :: r => let '(s', o) := mstep close_puts s e in
+              match o with Some got => got :: mrun close_puts s' r | None => mrun close_puts s' r end
+  end.
+Definition mem_wf (m : mem) : Prop :=
+  (forall k, In k (m_pool m) -> (k < length (m_heap m))%nat) /\ (forall k, In k (m_held m) -> (k < length (m_heap m))%nat).
+Definition is_attempt (e : mev) : bool := match e with MAttempt => true | _ => false end.
+
+(* observation of a byte string relative to a pattern (harness c04BodyOf / c04Observe): length, first
+   offset differing from the expected pattern (computed by the harness), first and last 48 bytes *)
+Definition pat_byte (salt i : N) : N := (i * 7 + i / 251 + salt) mod 253.
+Definition window : N := 48.
+Record bobs := mk_bobs { bo_len : N; bo_diff : option N; bo_head : list N; bo_tail : list N }.
+Fixpoint bytes_are (l : list N) (salt off : N) : bool :=
+  match l with
+  | [] => true
+  | c :: r => (c =? pat_byte salt off) && bytes_are r salt (off + 1)
+  end.
+Definition own_bytes (o : bobs) (salt len : N) : bool :=
+  let h := N.min len window in
+  (bo_len o =? len) && match bo_diff o with None => true | Some _ => false end &&
+  (N.of_nat (length (bo_head o)) =? h) && (N.of_nat (length (bo_tail o)) =? h) &&
+  bytes_are (bo_head o) salt 0 && bytes_are (bo_tail o) salt (len - h).
+Fixpoint pat_range (salt start : N) (n : nat) : list N :=
+  match n with
+  | O => []
+  | Datatypes.S m => pat_byte salt start :: pat_range salt (start + 1) m
+  end.
+Definition desc_of_pat (salt len : N) : bobs :=
+  let h := N.min len window in
+  mk_bobs len None (pat_range salt 0 (N.to_nat h)) (pat_range salt (len - h) (N.to_nat h)).
+Definition bobs_eqb (a b : bobs) : bool :=
+  (bo_len a =? bo_len b) &&
+  match bo_diff a, bo_diff b with None, None => true | Some x, Some y => x =? y | _, _ => false end &&
+  list_beq N.eqb (bo_head a) (bo_head b) && list_beq N.eqb (bo_tail a) (bo_tail b).
+(* one request of a concurrent schedule: body pattern, number of first attempts that fail *)
+Record rcreq := mk_rcreq { rc_salt : N; rc_len : N; rc_fails : nat }.
+Record rcatt := mk_rcatt { rca_host : nat; rca_body : bobs }.
+Record rcobs := mk_rcobs { rco_atts : list rcatt; rco_status : N; rco_ret : N }.
+
 Inductive case :=
 (* direct call of an exported policy type: pool, max_fails (1 = default CheckDown=nil), observed index *)
 | CPolicy (p : pol) (mf : Z) (pool : list host) (obs : option nat)
@@ -363,7 +464,14 @@ Inductive case :=
 (* m consecutive Selects of one RoundRobin whose counter was set to robin (also right below 2^32) *)
 | CRRSeq (robin : N) (av : list bool) (obs : list (option nat))
 | CRetryT (p : pol) (c : tcfg) (unhl : list bool) (scripts : list script) (envl : list (list bool))
-          (fx0l : list (list N)) (obs : list tev) (obs_out : tout).
+          (fx0l : list (list N)) (obs : list tev) (obs_out : tout)
+(* several `policy round_robin` blocks parsed from one text (per block: availability of its hosts)
+   served through Proxy.ServeHTTP following a schedule (which block gets the next request): the host
+   each request reached *)
+| CRRBlocks (avs : list (list bool)) (sched : list nat) (obs : list (option nat))
+(* concurrent schedule through one proxy (retries on): per request its body pattern and number of
+   failing first attempts; observed: every attempt (host, body bytes as received), status *)
+| CRetryConc (nhosts : nat) (reqs : list (rcreq * rcobs)).
 
 Definition pol_select (p : pol) (mf : Z) (pool : list host) : option (option nat) :=
   let av := avail_vec mf pool in
@@ -387,6 +495,48 @@ Definition sel_of (p : pol) : N -> list bool -> option nat * N :=
   | PHash h | PHeaderValue h => (static_select av (fun av => hash_select av h), st)
   | _ => (None, st)
   end.
+
+
+(* ================= several round_robin blocks served alternately (kind rrblocks) =================
+   policy.go registers `round_robin` with a factory that returns a NEW &RoundRobin{} for every parsed
+   proxy block: each staticUpstream has its own counter. [st]: the counter of every block; [sched]:
+   which block receives the next request. *)
+(* staticUpstream.Select with the round robin policy: one block, m consecutive requests *)
+Fixpoint rrs_run (av : list bool) (robin : N) (m : nat) : list (option nat) :=
+  match m with
+  | O => []
+  | Datatypes.S k => let '(o, robin') := sel_of (PRoundRobin 0) robin av in o :: rrs_run av robin' k
+  end.
+Fixpoint rrb_run (avs : list (list bool)) (st : list N) (sched : list nat) : list (option nat) :=
+  match sched with
+  | [] => []
+  | b :: r => let '(o, s') := sel_of (PRoundRobin 0) (nth b st 0) (nth b avs []) in
+              o :: rrb_run avs (set_nth b s' st) r
+  end.
+(* the requests of block b, in order *)
+Fixpoint proj {A} (b : nat) (sched : list nat) (xs : list A) : list A :=
+  match sched, xs with
+  | s :: sr, x :: xr => if Nat.eqb s b then x :: proj b sr xr else proj b sr xr
+  | _, _ => []
+  end.
+Definition count_nat (b : nat) (l : list nat) : nat := length (filter (Nat.eqb b) l).
+(* for contrast: ONE counter shared by all blocks (a package-level RoundRobin handed to every block) *)
+Fixpoint rrb_run_shared (avs : list (list bool)) (robin : N) (sched : list nat) : list (option nat) :=
+  match sched with
+  | [] => []
+  | b :: r => let '(o, s') := sel_of (PRoundRobin 0) robin (nth b avs []) in o :: rrb_run_shared avs s' r
+  end.
+(* executable clause: fairness of ONE block on its own requests while availability is unchanged:
+   never an unavailable host, a host whenever one is available, and the available hosts are visited
+   evenly: their visit counts differ by at most one *)
+Definition count_opt (j : nat) (obs : list (option nat)) : nat :=
+  length (filter (fun o => opt_nat_eqb o (Some j)) obs).
+Definition is_nil_nat (l : list nat) : bool := match l with [] => true | _ => false end.
+Definition block_fair (av : list bool) (obs : list (option nat)) : bool :=
+  let idxs := avail_idxs av in
+  forallb (fun o => match o with Some i => nth i av false | None => is_nil_nat idxs end) obs &&
+  forallb (fun i => forallb (fun j => Nat.leb (count_opt i obs) (Datatypes.S (count_opt j obs))) idxs) idxs.
+
 
 Fixpoint NoDup_b (l : list nat) : bool :=
   match l with [] => true | x :: r => negb (existsb (Nat.eqb x) r) && NoDup_b r end.
@@ -539,5 +689,26 @@ Definition judge (c : case) : N :=
         match obs_out with T502 t => t_td c <=? t | THang => false | TAnswered _ _ => true end &&
         (negb (never_ok n scr && (0 <? t_ti c)) ||
          match obs_out with T502 t => t <? t_td c + t_ti c + dmax | _ => false end) in
+      verdict agree spec
+  | CRRBlocks avs sched obs =>
+      let agree := list_beq opt_nat_eqb (rrb_run avs (map (fun _ => 0) avs) sched) obs in
+      (* fairness PER BLOCK, on the block's own requests *)
+      let spec :=
+        Nat.eqb (length obs) (length sched) && forallb (fun b => Nat.ltb b (length avs)) sched &&
+        forallb (fun b => block_fair (nth b avs []) (proj b sched obs)) (seq 0 (length avs)) in
+      verdict agree spec
+  | CRetryConc nhosts reqs =>
+      let agree :=
+        forallb (fun ro : rcreq * rcobs => let '(r, o) := ro in
+                   list_beq bobs_eqb (map rca_body (rco_atts o))
+                            (repeat (desc_of_pat (rc_salt r) (rc_len r)) (Datatypes.S (rc_fails r))) &&
+                   (rco_status o =? 200)) reqs in
+      (* every attempt received the complete original body BYTES, and the request was answered by the
+         backend that was up when its scripted failures were over *)
+      let spec :=
+        forallb (fun ro : rcreq * rcobs => let '(r, o) := ro in
+                   Nat.eqb (length (rco_atts o)) (Datatypes.S (rc_fails r)) &&
+                   forallb (fun a => Nat.ltb (rca_host a) nhosts && own_bytes (rca_body a) (rc_salt r) (rc_len r)) (rco_atts o) &&
+                   (rco_status o =? 200) && (rco_ret o =? 0)) reqs in
       verdict agree spec
   end.
